@@ -140,7 +140,7 @@ pub fn judge(c: &Case, st: &mut Stats) -> Verdict {
     }
 }
 
-fn gen_case(t: &mut Tape) -> Case {
+pub fn gen_case(t: &mut Tape) -> Case {
     let val = bld::gen_val(t, 40);
     let size = bld::ref_size(&val);
     let (prefill_len, prefill_seed) = match t.weighted(&[3, 4, 3, 1]) {
